@@ -21,7 +21,7 @@ func (c04) Info() core.Info {
 	return core.Info{
 		Level: "exploration",
 		Rule: "seeded swarm generation of REPL input sequences (functions, lambdas and closures defined, redefined, called repeatedly with equal and different arguments incl. verbatim re-submission of earlier inputs, " +
-			"reading/writing outer variables, printing, failing, calling rand()/time.now(), deadline faults inside calls that print) executed twice on the real code: cache enabled, and cache disabled through hook H1, " +
+			"reading/writing outer variables, printing, failing, calling rand()/time.now(), functions reading a sometimes-deleted global under catch(), recursion reading a global in every frame, deadline faults inside calls that print or inside a callee whose error the caller catch()es; fixed probes for -0.0 incl. nested in container arguments, variadic keys and save()/load() inside functions in a scratch directory) executed twice on the real code: cache enabled, and cache disabled through hook H1, " +
 			"with identical rand/time streams; every input must give identical output bytes, value, outcome class and rand/time call counts, and final globals must agree. " +
 			"distinct = distinct sequence of (tag, fault kind, outcome classes); non-trivial = at least one input ran in fewer ticks with the cache on (a cache hit happened).",
 		Real:    commonReal,
